@@ -80,7 +80,7 @@ def run(ctx, quick):
     for fam in ("where", "select"):
         cfgt = "SPECIFICATION Spec\nCONSTANTS\n  Mode = \"mc\"\n  Emit = TRUE\n  Family = \"%s\"\nINVARIANT RowsSound\nCHECK_DEADLOCK FALSE\n" % fam
         path, out = ctx.tlc_emit_file("Query", ctx.write_cfg("QY_%s.cfg" % fam, cfgt), label="Track.query: emit %s family" % fam)
-        n = ctx.pmap_emitted(path, replay, chunk=300)
+        n = ctx.pmap_emitted(path, replay, chunk=300, growth=True)
         if n != out.distinct:
             raise core.Machinery("emitted queries %d != distinct states %d" % (n, out.distinct))
         tot += n
